@@ -19,6 +19,16 @@ TABLE = [
      "decimal tiers/textgrids likewise within 4 ulp; the composition insertSpace;eraseRegion(shrink) must restore the "
      "label-at-every-time function and the span.",
      _NOTE, "DESIGN.md section 3 C08"),
+    ("C10", "exhaustive pair enumeration over a small grid + Hypothesis generated pairs vs elementary-segment reference model; algebraic laws on outputs",
+     "All ordered pairs of tiers over 4 (thorough: 6) grid cells x 2 labels are run through difference, intersection, union and "
+     "mergeLabels and compared bit-for-bit with a model written from the statement, plus the partition/union laws on the "
+     "implementation's own outputs; point-tier unions and Textgrid.mergeTiers likewise; random larger decimal pairs.",
+     _NOTE, "DESIGN.md section 3 C10"),
+    ("C11", "model-based testing of generated insert/delete histories against a list model; exhaustive single-insert order types",
+     "Generated histories of insertEntry (3 collision modes, 2 reporting modes, 3 argument forms) and deleteEntry (present/absent) "
+     "are compared with a list model after every step (entries, span, validate()); every order type of one inserted interval "
+     "against <=3 (thorough <=4) existing intervals is enumerated.",
+     _NOTE, "DESIGN.md section 3 C11"),
 ]
 
 PENDING = {}
